@@ -28,6 +28,8 @@ use crate::{
 use Prop::*;
 
 struct Msg {
+    /// published by a transaction commit
+    txn: bool,
     k: usize,
     diffs: Option<Vec<MDiff>>,
 }
@@ -88,6 +90,7 @@ pub struct Feat {
     pub dropped_mid_yield: bool,
     pub dropped_buffered: bool,
     pub txns: u32,
+    pub dropped_sub_in_txn: bool,
     pub ops_executed: u32,
     pub polls: u32,
     pub limit_changes: u32,
@@ -149,6 +152,8 @@ struct World {
     top_states: HashSet<u64>,
     probe: Option<(BoxS<Vec<Diff>>, Vec<MVal>)>,
     subs: Vec<Sub>,
+    /// a transaction is open (the vector is temporarily moved out of `vec`)
+    in_txn: bool,
 }
 
 fn hash_state(v: &[MVal]) -> u64 {
@@ -465,7 +470,7 @@ impl World {
                     let lag_reset = matches!(item.as_deref(), Some([VectorDiff::Reset { .. }])) && n > self.capacity;
                     if lag_reset {
                         for _ in 0..n {
-                            self.msgs.push(Msg { k: 1, diffs: None });
+                            self.msgs.push(Msg { txn: false, k: 1, diffs: None });
                         }
                     } else {
                         let d = item.as_ref().map_or(0, |v| v.len());
@@ -473,7 +478,7 @@ impl World {
                             format!("{what}: an up-to-date subscriber received {d} diffs ({:?}), expected exactly {n} (one per effective call, none for a documented no-op or a panicking call)", item)
                         })?;
                         for md in item.unwrap_or_default() {
-                            self.msgs.push(Msg { k: 1, diffs: Some(vec![md]) });
+                            self.msgs.push(Msg { txn: false, k: 1, diffs: Some(vec![md]) });
                         }
                     }
                     self.ck.check(replica_ok, &[C05, C06], || {
@@ -487,7 +492,7 @@ impl World {
                         if ds.len() >= 2 {
                             self.ck.f.multi_txn_commits += 1;
                         }
-                        self.msgs.push(Msg { k: ds.len(), diffs: Some(ds) });
+                        self.msgs.push(Msg { txn: true, k: ds.len(), diffs: Some(ds) });
                     }
                     self.ck.check(replica_ok, &[C05, C07], || {
                         format!("{what}: replica of an up-to-date subscriber {:?} != vector contents {:?}", self.probe.as_ref().unwrap().1, self.model)
@@ -499,7 +504,7 @@ impl World {
             match direct_msgs {
                 Some(n) => {
                     for _ in 0..n {
-                        self.msgs.push(Msg { k: 1, diffs: None });
+                        self.msgs.push(Msg { txn: false, k: 1, diffs: None });
                     }
                 }
                 None => {
@@ -507,7 +512,7 @@ impl World {
                         if predicted_k >= 2 {
                             self.ck.f.multi_txn_commits += 1;
                         }
-                        self.msgs.push(Msg { k: predicted_k, diffs: None });
+                        self.msgs.push(Msg { txn: true, k: predicted_k, diffs: None });
                     }
                 }
             }
@@ -600,8 +605,10 @@ impl World {
                 let mut batch = 0usize;
                 let mut effective_since_start = 0usize;
                 let mut rolled_back = false;
+                let mut receivers_gone = receivers == 0;
                 // resolve lazily: each op is resolved against the working copy
                 let mut vec = self.vec.take().unwrap();
+                self.in_txn = true;
                 let res: R = (|| {
                     let mut txn = vec.transaction();
                     for t in body {
@@ -612,12 +619,38 @@ impl World {
                                 batch = 0;
                                 rolled_back = true;
                             }
+                            TOp::DropSub(ix) => {
+                                let live: Vec<usize> = (0..self.subs.len())
+                                    .filter(|i| self.subs[*i].stream.is_some() && !self.subs[*i].is_twin && self.subs[*i].twin_of.is_none())
+                                    .collect();
+                                if !live.is_empty() {
+                                    let i = live[frac8(*ix, live.len())];
+                                    self.subs[i].stream = None;
+                                    self.ck.f.dropped_sub_in_txn = true;
+                                    if self.receivers() == 0 {
+                                        receivers_gone = true;
+                                    }
+                                }
+                            }
+                            TOp::Poll(ix) => {
+                                let live: Vec<usize> = (0..self.subs.len()).filter(|i| self.subs[*i].stream.is_some() && !self.subs[*i].ended).collect();
+                                if !live.is_empty() {
+                                    // nothing of the open transaction may be visible: the usual
+                                    // checks run against the pre-transaction contents
+                                    self.poll_once(live[frac8(*ix, live.len())])?;
+                                }
+                            }
                             TOp::V(vop) => {
                                 let mut vop = vop.clone();
                                 self.avoid_k2(&mut vop, working.len(), Some(&working));
                                 let r = self.resolve(&vop, working.len());
                                 let eff = exec_rvop(&mut self.ck, &mut txn, &mut working, &r, true)?;
-                                if matches!(r, RVOp::Clear) {
+                                if receivers_gone {
+                                    // no receiver left: the library records nothing any more
+                                    if matches!(r, RVOp::Clear) {
+                                        batch = 0;
+                                    }
+                                } else if matches!(r, RVOp::Clear) {
                                     if batch > 0 {
                                         self.ck.f.txn_clear_after_recorded = true;
                                     }
@@ -649,6 +682,7 @@ impl World {
                     Ok(())
                 })();
                 self.vec = Some(vec);
+                self.in_txn = false;
                 res?;
                 let committed = *end == TxnEnd::Commit;
                 if committed {
@@ -993,14 +1027,16 @@ impl World {
             return Ok(Outcome::Gone);
         }
         self.ck.f.polls += 1;
-        let vec_alive = self.vec.is_some();
+        let vec_alive = self.vec.is_some() || self.in_txn;
         let flag = Flag::new();
         let waker = flag_waker(&flag);
         let mut cx = Context::from_waker(&waker);
         let (res, prev, t0_ended_before) = {
             let sub = &mut self.subs[i];
             for t in &sub.taps {
-                t.borrow_mut().polled.clear();
+                let mut tb = t.borrow_mut();
+                tb.polled.clear();
+                tb.pending_this_poll = false;
             }
             let prev = sub.last_pending.take();
             let t0e = sub.taps[0].borrow().ended;
@@ -1077,6 +1113,18 @@ impl World {
                     let props = if t0_ended { stage_props(&self.subs[i].spec, 0) } else { vec![C08] };
                     return self.ck.fail(&props, format!("subscriber {i}: stream is Pending although the ObservableVector was dropped"));
                 }
+                // every stage's input must itself have reported Pending during this poll: an
+                // adapter that says Pending while the stage below still has items hides updates
+                let n_st = self.subs[i].spec.pipeline.len();
+                for j in 0..n_st {
+                    let below_pending = self.subs[i].taps[j].borrow().pending_this_poll;
+                    if !below_pending {
+                        let mut props = stage_props(&self.subs[i].spec, j);
+                        props.push(C14);
+                        let st = self.subs[i].spec.pipeline[j];
+                        return self.ck.fail(&props, format!("stage {j} ({}) returned Pending without its input stream having returned Pending in that poll (items may still be queued and no waker is registered there)", st.kind_name()));
+                    }
+                }
                 let (t0, props) = {
                     let sub = &self.subs[i];
                     (sub.taps[0].borrow().replica.clone(), source_props(sub))
@@ -1111,7 +1159,8 @@ impl World {
                     return self.ck.fail(&[C08], format!("subscriber {i}: stream ended while the ObservableVector is alive"));
                 }
                 let t0 = sub.taps[0].borrow().replica.clone();
-                self.ck.check(t0 == self.model, &[C08], || {
+                let props: &[Prop] = if sub.lagged { &[C08] } else { &[C08, C05] };
+                self.ck.check(t0 == self.model, props, || {
                     format!("subscriber {i}: stream ended with replica {:?}, final contents were {:?}", t0, self.model)
                 })?;
                 self.check_views(i, false, true)?;
@@ -1147,7 +1196,9 @@ impl World {
                 }
                 if let VectorDiff::Reset { values } = &item[0] {
                     let vals: Vec<MVal> = values.iter().copied().collect();
-                    self.ck.check(vals == self.model, &[C06], || {
+                    // the newest update was a commit: its published state is also C07's business
+                    let props: &[Prop] = if self.msgs.last().map_or(false, |m| m.txn) { &[C06, C07] } else { &[C06] };
+                    self.ck.check(vals == self.model, props, || {
                         format!("subscriber {i}: Reset carries {:?} but the vector contains {:?}", vals, self.model)
                     })?;
                 }
@@ -1163,7 +1214,7 @@ impl World {
                 let total: usize = pending.iter().map(|m| m.k).sum();
                 if trusted {
                     self.ck.check(!pending.is_empty(), &[C05, C06], || format!("batched subscriber {i} received {:?} although no update was pending", item))?;
-                    self.ck.check(item.len() == total, &[C05], || {
+                    self.ck.check(item.len() == total, &[C05, C06], || {
                         format!("batched subscriber {i} received {} diffs, the pending updates hold {total}", item.len())
                     })?;
                     if pending.iter().all(|m| m.diffs.is_some()) {
@@ -1236,7 +1287,7 @@ fn nontrivial(prop: Prop, f: &Feat) -> bool {
         C14 => f.limit_and_source_while_pending || (f.limit_changes == 0 && f.polls >= 4),
         C15 => f.insert_while_full,
         C17 => f.oob_calls >= 1 && f.traversal_remove_then_act,
-        C20 => f.yield_batch_partial || f.dropped_with_backlog || f.dropped_mid_yield || f.lagged_at_drop,
+        C20 => f.yield_batch_partial || f.dropped_with_backlog || f.dropped_mid_yield || f.lagged_at_drop || f.dropped_sub_in_txn,
         _ => true,
     }
 }
@@ -1349,6 +1400,7 @@ fn run_inner(case: &VecCase, prop: Prop) -> R<(CaseReport, Feat)> {
         top_states: HashSet::new(),
         probe: None,
         subs: vec![],
+        in_txn: false,
     };
     let init: Vec<MVal> = case.initial.iter().map(|k| w.new_val(*k)).collect();
     if !init.is_empty() {
@@ -1418,4 +1470,99 @@ fn run_inner(case: &VecCase, prop: Prop) -> R<(CaseReport, Feat)> {
     }
     let World { ck, .. } = w;
     Ok((ck.rep, ck.f))
+}
+
+/// Greedy structural shrinking (for cases that did not come out of proptest: fuzz artifacts,
+/// enumerated cases): drop operations, subscribers and initial items, shorten payloads, as long
+/// as the case still violates the property.
+pub fn shrink(case: &VecCase, prop: Prop) -> VecCase {
+    let fails = |c: &VecCase| matches!(crate::campaign::guarded(c, &|c: &VecCase| run(c, prop)), Err(Stop::Violation(_)));
+    let mut cur = case.clone();
+    if !fails(&cur) {
+        return cur;
+    }
+    let mut progress = true;
+    let mut budget = 20_000;
+    while progress && budget > 0 {
+        progress = false;
+        let mut i = 0;
+        while i < cur.ops.len() && budget > 0 {
+            budget -= 1;
+            let mut c = cur.clone();
+            c.ops.remove(i);
+            if fails(&c) {
+                cur = c;
+                progress = true;
+            } else {
+                i += 1;
+            }
+        }
+        let mut i = 0;
+        while i < cur.subs.len() && budget > 0 {
+            budget -= 1;
+            let mut c = cur.clone();
+            c.subs.remove(i);
+            if fails(&c) {
+                cur = c;
+                progress = true;
+            } else {
+                i += 1;
+            }
+        }
+        let mut i = 0;
+        while i < cur.initial.len() && budget > 0 {
+            budget -= 1;
+            let mut c = cur.clone();
+            c.initial.remove(i);
+            if fails(&c) {
+                cur = c;
+                progress = true;
+            } else {
+                i += 1;
+            }
+        }
+        // shorten Append payloads and transaction bodies
+        for i in 0..cur.ops.len() {
+            loop {
+                if budget == 0 {
+                    break;
+                }
+                budget -= 1;
+                let mut c = cur.clone();
+                let changed = match &mut c.ops[i] {
+                    Op::V(VOp::Append(v)) if !v.is_empty() => {
+                        v.pop();
+                        true
+                    }
+                    Op::Txn { body, .. } if !body.is_empty() => {
+                        body.pop();
+                        true
+                    }
+                    _ => false,
+                };
+                if changed && fails(&c) {
+                    cur = c;
+                    progress = true;
+                } else {
+                    break;
+                }
+            }
+        }
+        for flag in 0..2 {
+            let mut c = cur.clone();
+            if flag == 0 && c.final_drop {
+                c.final_drop = false;
+            } else if flag == 1 && c.capacity != 16 {
+                c.capacity = 16;
+            } else {
+                continue;
+            }
+            budget -= 1;
+            if fails(&c) {
+                cur = c;
+                progress = true;
+            }
+        }
+    }
+    cur
 }
